@@ -9,8 +9,8 @@ import (
 
 	"verifsim/kernel"
 	"verifsim/simrt"
-	"verifsim/simtask"
 	"verifsim/simsync"
+	"verifsim/simtask"
 )
 
 // Request is one case sent by the parent.
